@@ -9,7 +9,13 @@ for d in ${@:-$(ls "$HERE/seeded")}; do
     meta="$HERE/seeded/$d/meta.json"
     [ -f "$meta" ] || continue
     checks=$(jq -r '.caught_by | keys[] | select(test("quick")) | split(" ")[0]' "$meta" | sort -u | tr '\n' ' ')
-    out=$(SKIP_TESTS=1 "$HERE/tools/mutcheck.sh" "$HERE/seeded/$d/patch.diff" $checks 2>&1)
+    tier=quick
+    if [ -z "$checks" ]; then
+        # caught by the thorough tier only (e.g. a wall-clock limit of a minute)
+        checks=$(jq -r '.caught_by | keys[] | select(test("thorough")) | split(" ")[0]' "$meta" | sort -u | tr '\n' ' ')
+        tier=thorough
+    fi
+    out=$(TIER=$tier SKIP_TESTS=1 "$HERE/tools/mutcheck.sh" "$HERE/seeded/$d/patch.diff" $checks 2>&1)
     if echo "$out" | grep -q "exit=1"; then ok=$((ok+1)); echo "CAUGHT $d by $(echo "$out" | grep 'exit=1' | cut -d' ' -f1 | tr '\n' ' ')";
     else bad=$((bad+1)); list="$list $d"; echo "MISSED $d ($(echo "$out" | tr '\n' ' ' | cut -c1-200))"; fi
 done
